@@ -24,6 +24,16 @@ var solvers = []solverSpec{
 	{"cvc5", func(f string, t int) []string {
 		return []string{"cvc5", fmt.Sprintf("--tlimit=%d", t*1000), "--incremental", f}
 	}},
+	// more z3 runs with different random seeds: an unsat answer from any run is a proof
+	{"z3-new/seed1", func(f string, t int) []string {
+		return []string{"z3-new", fmt.Sprintf("-T:%d", t), "smt.random_seed=1", "sat.random_seed=1", f}
+	}},
+	{"z3-new/seed2", func(f string, t int) []string {
+		return []string{"z3-new", fmt.Sprintf("-T:%d", t), "smt.random_seed=2", "sat.random_seed=2", "smt.arith.random_initial_value=true", f}
+	}},
+	{"z3-new/seed3", func(f string, t int) []string {
+		return []string{"z3-new", fmt.Sprintf("-T:%d", t), "smt.random_seed=3", "smt.qi.eager_threshold=20", f}
+	}},
 }
 
 type solveOut struct {
